@@ -42,6 +42,12 @@ def strip_comments(src):
             j = src.find("*/", i + 2)
             i = n if j < 0 else j + 2
             continue
+        if c == "r" and re.match(r'r#+"', src[i:]):
+            hashes = re.match(r'r(#+)"', src[i:]).group(1)
+            j = src.find('"' + hashes, i + 2 + len(hashes))
+            i = n if j < 0 else j + 1 + len(hashes)
+            out.append('""')
+            continue
         if c == '"':
             j = i + 1
             while j < n and src[j] != '"':
@@ -274,6 +280,316 @@ def parser_tables(notes):
     return "".join(out)
 
 
+# ---------------------------------------------------------------- interpreter tables
+
+def split_arms(body):
+    """split the body of a `match` into (pattern, guard, expression) triples"""
+    arms = []
+    i = 0
+    n = len(body)
+    while i < n:
+        while i < n and body[i] in " \t\r\n,":
+            i += 1
+        if i >= n:
+            break
+        # pattern up to '=>' at depth 0
+        depth = 0
+        j = i
+        while j < n:
+            c = body[j]
+            if c in "([{":
+                depth += 1
+            elif c in ")]}":
+                depth -= 1
+            elif depth == 0 and body.startswith("=>", j):
+                break
+            j += 1
+        pat = body[i:j].strip()
+        j += 2
+        while j < n and body[j] in " \t\r\n":
+            j += 1
+        if j < n and body[j] == "{":
+            k = match_brace(body, j)
+            expr = body[j:k]
+        else:
+            depth = 0
+            k = j
+            while k < n:
+                c = body[k]
+                if c == '"':
+                    k += 1
+                    while k < n and body[k] != '"':
+                        k += 2 if body[k] == "\\" else 1
+                elif c in "([{":
+                    depth += 1
+                elif c in ")]}":
+                    depth -= 1
+                elif c == "," and depth == 0:
+                    break
+                k += 1
+            expr = body[j:k]
+        guard = None
+        m = re.match(r"(.*?)\s+if\s+(.*)$", pat, re.S)
+        if m:
+            pat, guard = m.group(1).strip(), m.group(2).strip()
+        arms.append((pat, guard, expr.strip()))
+        i = k
+    return arms
+
+
+def squash(t):
+    return re.sub(r"\s+", "", t)
+
+
+def vpat(p):
+    """(kind, bound variable) of a value pattern"""
+    p = p.strip().replace("Value::", "")
+    if p == "_":
+        return "PAny", None
+    m = re.match(r"(Number|String|List|Bool|NativeObject|NativeFunction|Function)\((.*)\)$", p)
+    if m:
+        k = {"Number": "PNum", "String": "PStr", "List": "PList", "Bool": "PBool", "NativeObject": "PObj",
+             "NativeFunction": "PNever", "Function": "PNever"}[m.group(1)]
+        return k, m.group(2).strip()
+    if p == "Null":
+        return "PNull", None
+    if re.match(r"^[a-z_]\w*$", p):
+        return "PAny", p
+    return "PUnknownPattern", None
+
+
+def coq_str(s):
+    return '"' + s.replace('"', '""') + '"%string'
+
+
+def err_message(raw):
+    m = re.search(r'message:\s*"([^"]*)"\s*\.to_string\(\)', raw)
+    return m.group(1) if m else None
+
+
+def interp_tables(notes):
+    it = strip_comments(read("interpreter/interpreter.rs"))
+    out = []
+    # ---- binary
+    b = fn_body(it, "binary")
+    m = re.search(r"match\s*\(&lhs,\s*&node\.operator,\s*&rhs\)\s*\{", b)
+    if not m:
+        raise TranslateError("`binary`: operator match not found")
+    if not re.search(r"let\s+lhs\s*=\s*self\.expr\(&node\.left\)\?;\s*let\s+rhs\s*=\s*self\.expr\(&node\.right\)\?;", b):
+        notes.append("binary: operand evaluation prologue not recognised")
+        out.append("Definition binary_evaluates_left_then_right : bool := false.\n")
+    else:
+        out.append("Definition binary_evaluates_left_then_right : bool := true.\n")
+    arms = split_arms(b[m.end():match_brace(b, m.end() - 1) - 1])
+    rows = []
+    for pat, guard, expr in arms:
+        sq = squash(expr)
+        if pat.strip() == "_":
+            lp, op, rp, lv_, rv_ = "PAny", "None", "PAny", None, None
+        else:
+            inner = pat.strip()[1:-1]
+            parts = [x.strip() for x in re.split(r",\s*(?![^()]*\))", inner)]
+            if len(parts) != 3:
+                rows.append("mkBArm PAny None PAny AUnknown")
+                continue
+            (lp, lv_), (rp, rv_) = vpat(parts[0]), vpat(parts[2])
+            op = "None" if parts[1] == "_" else "(Some %s)" % BINOPS.get(parts[1], "BUnknown_" + parts[1])
+        ab = (lv_ == "a" and rv_ == "b")
+        act = "AUnknown"
+        if guard:
+            act = "AUnknown"
+        elif sq == "Ok(Bool(Self::equals(&lhs,&rhs)))":
+            act = "AEq"
+        elif sq == "Ok(Bool(!Self::equals(&lhs,&rhs)))":
+            act = "ANeq"
+        elif ab and re.fullmatch(r"Ok\(Bool\(a(<=|>=|<|>)b\)\)", sq):
+            act = "ACmp " + {"<": "CLt", "<=": "CLe", ">": "CGt", ">=": "CGe"}[re.fullmatch(r"Ok\(Bool\(a(<=|>=|<|>)b\)\)", sq).group(1)]
+        elif ab and re.fullmatch(r"Ok\(Number\(a([+\-*])b\)\)", sq):
+            act = "AArith " + {"+": "OAdd", "-": "OSub", "*": "OMul"}[re.fullmatch(r"Ok\(Number\(a([+\-*])b\)\)", sq).group(1)]
+        elif ab and re.fullmatch(r"\{if\*b!=0\.0\{Ok\(Number\(a([/%])b\)\)\}else\{Err\(RuntimeError\{.*span:node\.token\.span,.*\}\)\}\}", sq):
+            o = re.fullmatch(r"\{if\*b!=0\.0\{Ok\(Number\(a([/%])b\)\)\}else.*", sq).group(1)
+            act = "AGuarded %s %s" % ("ODiv" if o == "/" else "OMod", coq_str(err_message(expr) or "?"))
+        elif ab and sq == 'Ok(String(format!("{a}{b}")))':
+            act = "AConcat"
+        elif ab and "a.borrow().iter().cloned().chain(b.borrow().iter().cloned()).collect()" in sq and \
+                sq.endswith("Ok(List(RefCell::new(new_list).into()))}"):
+            act = "AListConcat"
+        elif re.fullmatch(r"Err\(RuntimeError\{.*span:node\.token\.span,.*\}\)", sq) and err_message(expr):
+            act = "AErr " + coq_str(err_message(expr))
+        rows.append("mkBArm %s %s %s (%s)" % (lp, op, rp, act))
+    out.append("Definition binop_arms : list barm := [\n  " + ";\n  ".join(rows) + "].\n")
+
+    # ---- unary
+    b = fn_body(it, "unary")
+    m = re.search(r"match\s*\(&node\.operator,\s*value\)\s*\{", b)
+    if not m:
+        raise TranslateError("`unary`: operator match not found")
+    rows = []
+    for pat, guard, expr in split_arms(b[m.end():match_brace(b, m.end() - 1) - 1]):
+        sq = squash(expr)
+        inner = pat.strip()[1:-1]
+        parts = [x.strip() for x in re.split(r",\s*(?![^()]*\))", inner)]
+        op = {"Minus": "(Some UMinus)", "Not": "(Some UNot)"}.get(parts[0], "None")
+        vp, var = vpat(parts[1])
+        if vp == "PNever":
+            continue
+        act = "UUnknown"
+        if var and sq == "Ok(Number(-%s))" % var:
+            act = "UNeg"
+        elif var and sq == "Ok(Bool(!Self::is_truthy(&%s)))" % var:
+            act = "UNot_"
+        elif re.fullmatch(r"Err\(RuntimeError\{.*span:node\.token\.span,.*\}\)", sq) and err_message(expr):
+            act = "UErr " + coq_str(err_message(expr))
+        rows.append("mkUArm %s %s (%s)" % (op, vp, act))
+    out.append("Definition unop_arms : list uarm := [\n  " + ";\n  ".join(rows) + "].\n")
+
+    # ---- equals
+    b = fn_body(it, "equals")
+    m = re.search(r"match\s*\(lhs,\s*rhs\)\s*\{", b)
+    rows = []
+    for pat, guard, expr in split_arms(b[m.end():match_brace(b, m.end() - 1) - 1]):
+        sq = squash(expr)
+        inner = pat.strip()[1:-1]
+        parts = [x.strip() for x in re.split(r",\s*(?![^()]*\))", inner)]
+        (lp, lv_), (rp, rv_) = vpat(parts[0]), vpat(parts[1])
+        act = "QUnknown"
+        if lv_ and rv_ and sq == "(%s-%s).abs()<f64::EPSILON" % (lv_, rv_):
+            act = "QEps"
+        elif lv_ and rv_ and sq == "%s==%s" % (lv_, rv_):
+            act = "QSame"
+        elif sq == "true":
+            act = "QTrue"
+        elif sq == "false":
+            act = "QFalse"
+        rows.append("mkQArm %s %s (%s)" % (lp, rp, act))
+    out.append("Definition equals_arms : list qarm := [" + "; ".join(rows) + "].\n")
+
+    # ---- truthiness
+    b = fn_body(it, "is_truthy")
+    m = re.search(r"match\s+value\s*\{", b)
+    rows = []
+    for pat, guard, expr in split_arms(b[m.end():match_brace(b, m.end() - 1) - 1]):
+        sq = squash(expr)
+        vp, var = vpat(pat)
+        act = "YUnknown"
+        if guard is None and var and sq == "*" + var and vp == "PBool":
+            act = "YBoolValue"
+        elif guard is not None and var and squash(guard) == "*%s==0.0" % var and sq == "false":
+            act = "YZeroFalse"
+        elif guard is None and sq in ("true", "false"):
+            act = "YConst " + sq
+        rows.append("mkYArm %s (%s)" % (vp, act))
+    out.append("Definition truthy_arms : list yarm := [" + "; ".join(rows) + "].\n")
+    return "".join(out)
+
+
+KINDS = {None: "KAny", "Number": "KNum", "String": "KStr", "Bool": "KBool", "List": "KList", "Null": "KNull"}
+
+
+def stdlib_tables(notes):
+    mod = strip_comments(read("standard_library/mod.rs"))
+    out = []
+    regs = re.findall(r'self\.register\("(\w+)",\s*([\w:]+)\)', fn_body(mod, "inject"))
+    files = {}
+    libdir = os.path.join(SRC, "standard_library")
+    for fn in sorted(os.listdir(libdir)):
+        if fn.endswith(".rs"):
+            files[fn] = strip_comments(open(os.path.join(libdir, fn), encoding="utf-8").read())
+    sigs = []
+    bodies = {}
+    registry = []
+    for name, inj in regs:
+        fnname = inj.split("::")[-1]
+        src = None
+        for fn, text in files.items():
+            if re.search(r"\bfn\s+%s\s*\(" % fnname, text):
+                src = text
+                break
+        if src is None:
+            raise TranslateError("injector %s of module %s not found" % (inj, name))
+        registry.append(name)
+        body = fn_body(src, fnname)
+        for m in re.finditer(r"std_function!\(\s*functions\s*=>\s*fn\s+(\w+)\s*(?:\[\w+\])?\s*\(", body):
+            j = match_brace(body, m.end() - 1, "(", ")")
+            params = body[m.end():j - 1]
+            kinds = []
+            for p in [x.strip() for x in params.split(",") if x.strip()]:
+                pm = re.match(r"\w+\s*:\s*Value(?:\s*::\s*(\w+))?(?:\s*<\s*(\w+)\s*>)?$", p)
+                if not pm:
+                    kinds.append("KUnknown")
+                elif pm.group(1) == "NativeObject":
+                    kinds.append("(KObj %s)" % {"ApLangMap": "OMap", "Robot": "ORobot"}.get(pm.group(2), "OUnknown_" + str(pm.group(2))))
+                else:
+                    kinds.append(KINDS.get(pm.group(1), "KUnknown"))
+            k = body.index("{", j)
+            bodies[(name, m.group(1))] = body[k:match_brace(body, k)]
+            sigs.append('(%s, %s, [%s])' % (coq_str(name), coq_str(m.group(1)), "; ".join(kinds)))
+    out.append("Definition module_registry : list string := [" + "; ".join(coq_str(r) for r in registry) + "].\n")
+    out.append("Definition std_sigs : list (string * string * list akind) := [\n  " + ";\n  ".join(sigs) + "].\n")
+    it = strip_comments(read("interpreter/interpreter.rs"))
+    pre = re.findall(r'modules\.lookup\("(\w+)"\)\.unwrap\(\)\(\)', fn_body(it, "new"))
+    out.append("Definition preloaded : list string := [" + "; ".join(coq_str(x) for x in pre) + "].\n")
+
+    # MATH bodies
+    rows = []
+    for (mname, fname), btxt in bodies.items():
+        if mname != "MATH":
+            continue
+        sq = squash(btxt)
+        m = re.search(r"fn\s+%s\s*\(([^)]*)\)" % fname, files["math.rs"])
+        params = [x.split(":")[0].strip() for x in m.group(1).split(",") if x.strip()] if m else []
+        f = "MUnknown"
+        args = []
+        m1 = re.fullmatch(r"\{letresult=f64::(\w+)\(([\w,]*)\);returnOk\(Value::Number\(result\)\);\}", sq)
+        m2 = re.fullmatch(r"\{letresult=(\w+)\.max\((\w+)\)\.min\((\w+)\);returnOk\(Value::Number\(result\)\);\}", sq)
+        m3 = re.fullmatch(r"\{returnOk\(Value::Number\(std::f64::consts::(\w+)\)\);\}", sq)
+        if m1:
+            f = "MFn " + coq_str(m1.group(1))
+            args = [params.index(a) if a in params else 99 for a in m1.group(2).split(",") if a]
+        elif m2:
+            f = "MClamp"
+            args = [params.index(a) if a in params else 99 for a in m2.groups()]
+        elif m3:
+            f = "MConst " + coq_str(m3.group(1))
+        rows.append("(%s, (%s), [%s])" % (coq_str(fname), f, "; ".join("%d%%nat" % a for a in args)))
+    out.append("Definition math_bodies : list (string * mathfn * list nat) := [\n  " + ";\n  ".join(rows) + "].\n")
+
+    # STYLE table
+    st = bodies.get(("STYLE", "STYLE"), "")
+    pairs = re.findall(r'"(\w+)"\s*=>\s*"((?:\\x1b|\\u\{1b\})\[[0-9;]*m)"', st)
+    out.append("Definition style_table : list (string * string) := [" + "; ".join(
+        "(%s, %s)" % (coq_str(a), coq_str(re.sub(r"^\\x1b|^\\u\{1b\}", "", b))) for a, b in pairs) + "].\n")
+    return "".join(out)
+
+
+OUTPUT_MACROS = ["println!", "print!", "eprintln!", "eprint!", "dbg!", "display!", "display_error!"]
+
+
+def output_sites(notes):
+    """every occurrence of an output macro / std stream handle in src/, with file and enclosing fn"""
+    rows = []
+    for root, _, fs in os.walk(SRC):
+        for fn in sorted(fs):
+            if not fn.endswith(".rs"):
+                continue
+            rel = os.path.relpath(os.path.join(root, fn), SRC)
+            text = strip_comments(open(os.path.join(root, fn), encoding="utf-8").read())
+            # drop string literals so that text inside messages does not count
+            plain = re.sub(r'"(?:\\.|[^"\\])*"', '""', text)
+            for m in re.finditer(r"(?<![\w!])(println!|print!|eprintln!|eprint!|dbg!|display!|display_error!|io::stdout\(\)|io::stderr\(\)|std::io::stdout\(\)|std::io::stderr\(\))", plain):
+                head = plain[:m.start()]
+                # skip the macro_rules! definitions themselves
+                line = head[head.rfind("\n") + 1:]
+                if "macro_rules!" in line:
+                    continue
+                fns = re.findall(r"\bfn\s+(\w+)", head)
+                test = bool(re.search(r"#\[(cfg\(test\)|test)\]", head[max(0, head.rfind("\nfn ")):])) or rel.endswith("tests.rs")
+                rows.append((rel, fns[-1] if fns else "-", m.group(1).replace("std::", ""), test))
+    out = "Definition output_sites : list (string * string * string * bool) := [\n  " + ";\n  ".join(
+        "(%s, %s, %s, %s)" % (coq_str(a), coq_str(b), coq_str(c), "true" if t else "false") for a, b, c, t in rows) + "].\n"
+    return out
+
+
 def regenerate():
     notes = []
     parts = ["(** GENERATED by /verif/vlib/translate.py from /repo/src on every check run. Do not edit. *)\n",
@@ -282,6 +598,13 @@ def regenerate():
     parts.append(lexer_tables(notes))
     parts.append("\n(* ---- parser tables: src/parser/parser.rs, src/lexer/token.rs *)\n")
     parts.append(parser_tables(notes))
+    parts.append("\n(* ---- interpreter tables: src/interpreter/interpreter.rs *)\n")
+    parts.append("From Aplang Require Import Tables.\n")
+    parts.append(interp_tables(notes))
+    parts.append("\n(* ---- library tables: src/standard_library/*.rs *)\n")
+    parts.append(stdlib_tables(notes))
+    parts.append("\n(* ---- every output statement of src/ *)\n")
+    parts.append(output_sites(notes))
     text = "".join(parts)
     os.makedirs(os.path.dirname(OUT), exist_ok=True)
     old = open(OUT).read() if os.path.exists(OUT) else None
